@@ -218,7 +218,7 @@ def gen_spec(rng, pairing=None, small=False, allow_tiering=False,
     if rng.random() < 0.35:
         spec["delay"] = {"prob": rng.choice([0.0, 0.3, 0.7, 1.0]),
                          "degree": rng.choice(["LOW", "MID", "HIGH"]),
-                         "seed": rng.randint(0, 50)}
+                         "seed": rng.choice([0, rng.randint(0, 50), rng.randint(0, 50), rng.randint(0, 50)])}
     elif rng.random() < 0.3:
         spec["delay"] = {"script_seed": rng.randint(0, 10 ** 6), "p": 0.4, "max": 4}
     else:
